@@ -223,7 +223,8 @@ def run(ctx):
             env["VERIF_IN"] = inp
         r = vlib.run_go(ctx, "./drivers/c15/", "^%s$" % test, env=env, timeout=1500)
         if not os.path.exists(outp) or os.path.getsize(outp) == 0:
-            raise vlib.Inconclusive("driver %s produced no trace (rc=%s, see %s)" % (test, r["rc"], r["log"]))
+            dead.append("driver %s produced no trace (rc=%s, see %s)" % (test, r["rc"], r["log"]))
+            continue
         if r["rc"] != 0:
             # A driver stops when calls stay blocked whatever it tries (it cannot leave its synctest bubble then); what it
             # recorded up to there is judged like any other trace, and only if that shows nothing is the run inconclusive.
@@ -243,14 +244,15 @@ def run(ctx):
         for e in raw:
             if e.get("e") == "note" and e.get("k") == "nohook":
                 notes[e["hook"]] = notes.get(e["hook"], 0) + 1
-        lines = [l for l in raw if l.get("e") not in ("quiet-soft", "note")]
-        s = vlib.split_scenarios(lines)
+        s = [[l for l in sc if l.get("e") not in ("quiet-soft", "note")] for sc in full]
+        lines = [l for sc in s for l in sc]
         traces.append((test, s, full))
         ctx.log("%s: %d scenarios, %d events" % (test, len(s), len(lines)))
 
     # 4. validate by TLC
     total, nontrivial, hits, obl = 0, set(), {}, {}
     for test, s, full in traces:
+        full_of = {id(a): b for a, b in zip(s, full)}     # the scenario with its note lines
         rej, acc, st = vlib.validate_by_cursor(ctx, FAMILY, "RpcQueueTrace", "RpcQueueTrace.cfg", s,
                                                chunk=1500 if test in ("TestC15Seq", "TestC15Burst") else 400, name="tv-" + test)
         states += st
@@ -277,12 +279,16 @@ def run(ctx):
         for (i, k, inv) in rej:
             sc = s[i]
             bad = sc[k] if k < len(sc) else None
+            cancelled = {e["ctx"] for e in sc[:k] if e.get("e") == "cancel"}
             lost = bool(bad and bad.get("e") == "quiet" and any(
-                e.get("e") == "cancel" for e in sc[:k]) and bad["blocked"])
+                e.get("e") == "call" and e.get("op") == "pop" and e["id"] in bad["blocked"] and e["ctx"] in cancelled for e in sc[:k]))
             pred = "P_C15_Progress" if bad and bad.get("e") == "quiet" else "P_C15_Linearizable"
             sig = {"driver": test, "line": bad.get("e") if bad else None,
                    "kind": "pop-blocked-after-cancel" if lost else ("blocked-set" if pred == "P_C15_Progress" else "result"),
                    "forced": test in ("TestC15Forced", "TestC15Park")}
+            parked = [e["hook"] for e in full_of.get(id(sc), []) if e.get("e") == "note" and e.get("k") == "parked"]
+            if parked:
+                sig["parked"] = parked[0]
             vlib.add_violation(ctx, pred, sig,
                                "history not explainable by the sequential queue at line %d of a %s scenario: %s" % (k, test, json.dumps(bad)),
                                {"driver": test, "scenario": sc, "failing_line": k})
